@@ -1715,7 +1715,7 @@ def hkAnnounce (o : Oracle) (c3 : Ctx) (now : Int) : Ctx :=
 
 def hkOwn (c5 : Ctx) (now : Int) : Ctx :=
   if c5.node.nextOwnReset ≤ now then
-    { c5 with node := { c5.node with own := [c5.node.addr], nextOwnReset := now + 300 } }
+    { c5 with node := { c5.node with own := c5.node.cfg.advertise ++ [c5.node.addr], nextOwnReset := now + 300 } }
   else c5
 
 theorem housekeep_eq (env : CryptoEnv) (o : Oracle) (n : Node) (now : Int) :
